@@ -93,6 +93,8 @@ def effective_patterns(hist_gens, st):
 
 
 def shrink(scn, fails, budget=60):
+    if os.environ.get("VERIF_NO_SHRINK"):
+        return scn
     """greedy reduction of a failing scenario: drop steps (from the end), then tree entries"""
     cur = copy.deepcopy(scn)
     tries = 0
